@@ -54,7 +54,13 @@ class ChunkParser:
                 raw = b''
             elif line.strip() != b'':
                 # chunk-size [ chunk-ext ]
-                self.size = int(line.split(b';', 1)[0].strip(), 16)
+                size = line.split(b';', 1)[0].strip()
+                # int() also accepts signs, underscores and 0x prefix.
+                # A negative size would never be satisfied by the
+                # data branch below and parse() would loop forever.
+                if not size.isalnum():
+                    raise ValueError('Invalid chunk size %r' % size)
+                self.size = int(size, 16)
                 self.state = chunkParserStates.WAITING_FOR_DATA
             # else: blank line i.e. CRLF terminating previous
             # chunk data was received, skip it and continue.
